@@ -24,8 +24,14 @@ Start(src) == /\ running' = TRUE /\ t' = 0
               /\ cand' = [i \in 0..(N - 1) |-> {src[i]}]
               /\ UNCHANGED oam
 
-\* the guest (or anything else) changes source byte i while the transfer may be running
-SrcWrite(i, v) == /\ cand' = IF running THEN [cand EXCEPT ![i] = @ \cup {v}] ELSE cand
+\* the guest (or anything else) changes source byte i while the transfer may be running, t cycles after its start.
+\* Byte i is copied around cycle i + 2 of the transfer ("each source byte as it was when copied"): a change that
+\* comes clearly before that replaces what OAM will get, one that comes clearly after it is not seen any more; in a
+\* window of one cycle either side both values are accepted.
+SrcWrite(i, v) == /\ cand' = IF ~running THEN cand
+                              ELSE IF t <= i THEN [cand EXCEPT ![i] = {v}]
+                              ELSE IF t >= i + 4 THEN cand
+                              ELSE [cand EXCEPT ![i] = @ \cup {v}]
                   /\ UNCHANGED <<running, t, oam>>
 
 \* a machine cycle passes; the transfer may complete at any cycle up to Bound and must have by then
